@@ -1025,7 +1025,10 @@ example : filterLine true true (ascii "f") 12 (ascii "k") =
     plumbing models mirror is the one the models were written against (`Model/C01Source.lean`): in
     `processLineSync` the context's `linePtr`, `indices`, `source`, `lineNum` are assigned before
     `IgnoreMatch(expContext)`, which is evaluated before `BuildKey(expContext)`; `IgnoreMatch` returns at the first
-    truthy result; `Truthy` is `strings.TrimSpace(s) != ""`. -/
+    truthy result; `Truthy` is `strings.TrimSpace(s) != ""`; `asyncWorker` sends the matches of ONE input batch,
+    in order, iff there is at least one, and does nothing else between two batches (the counters move line by line
+    inside `processLineSync`, there is no per-worker tally to publish); `New` makes `readChan` with capacity 5, starts
+    `getWorkerCount()` workers on the same channel and closes `readChan` after `wg.Wait()`. -/
 theorem source_statements_match :
     Gen.C01.stmts_processLineSync = Source.stmts_processLineSync ∧
     Gen.C01.stmts_ignoreMatch = Source.stmts_ignoreMatch ∧
@@ -1043,8 +1046,10 @@ theorem source_statements_match :
     Gen.C01.stmts_colorWrap = Source.stmts_colorWrap ∧
     Gen.C01.stmts_colorWrapi = Source.stmts_colorWrapi ∧
     Gen.C01.stmts_colorWrapf = Source.stmts_colorWrapf ∧
-    Gen.C01.stmts_filterFunction = Source.stmts_filterFunction := by
-  refine ⟨rfl, rfl, rfl, rfl, rfl, rfl, rfl, rfl, rfl, rfl, rfl, rfl, rfl, rfl, rfl, rfl, rfl⟩
+    Gen.C01.stmts_filterFunction = Source.stmts_filterFunction ∧
+    Gen.C01.stmts_asyncWorker = Source.stmts_asyncWorker ∧
+    Gen.C01.stmts_extractorNew = Source.stmts_extractorNew := by
+  refine ⟨rfl, rfl, rfl, rfl, rfl, rfl, rfl, rfl, rfl, rfl, rfl, rfl, rfl, rfl, rfl, rfl, rfl, rfl, rfl⟩
 
 /-- The guard table `configure` interprets IS the source's (variable, comparison, bound, exit code, message, in
     order); each guarded variable is read from the flag the model says; the constructors receive
